@@ -584,6 +584,26 @@ func mangleMinted(cls string, doc map[string]any) []byte {
 				}
 			}
 		}
+	case "minted-bareMinimal":
+		// ... reduced to the claims a validator looks at (no URL, no address: not a single '.' in the whole value)
+		if t, ok := d["id_token"].(string); ok {
+			if parts := strings.Split(t, "."); len(parts) == 3 {
+				if b, err := b64.DecodeString(parts[1]); err == nil {
+					var claims map[string]any
+					if json.Unmarshal(b, &claims) == nil {
+						min := map[string]any{}
+						for _, k := range []string{"aud", "nonce", "exp", "iat", "sub"} {
+							if v, ok := claims[k]; ok {
+								min[k] = v
+							}
+						}
+						if mb, err := json.Marshal(min); err == nil {
+							d["id_token"] = string(mb)
+						}
+					}
+				}
+			}
+		}
 	case "minted-jsonJws":
 		// the ID token in the JWS JSON serialisation instead of the compact one
 		if t, ok := d["id_token"].(string); ok {
